@@ -25,6 +25,7 @@ var root = "/verif"
 
 func main() {
 	dumpPypiCandidates = props.C09Candidates0
+	dumpMavenCandidates = props.C12Candidates0
 	prop := flag.String("prop", "", "property id")
 	tier := flag.String("tier", "quick", "quick|thorough")
 	worker := flag.String("worker", "", "i/n (internal)")
